@@ -65,6 +65,11 @@ def doc_hook(I, p, fr, t, args):
             return Doc([("softline",)])      # a place where the layout may break the line (prints nothing when it does not)
         if n in ("nil",):
             return Doc([])
+        if n == "flat_alt" and len(args) > 1:
+            # printed one way when the enclosing group is broken over several lines, another way when it fits on one: both are texts
+            # the printer can produce, so both must parse
+            from .interp import Fork
+            return Fork([("the enclosing group is broken over several lines", to_doc(I, args[0])), ("the enclosing group fits on one line", to_doc(I, args[1]))])
         if n in LAYOUT_ONLY or n in ("clone", "to_owned", "borrow", "deref"):
             return to_doc(I, args[0])
         if n == "enclose" and len(args) > 2:
